@@ -275,7 +275,7 @@ out:
 		child->uid = ent->uid;
 		child->gid = ent->gid;
 		child->mode = ent->mode;
-		child->mod_time = ent->mtime;
+		child->mod_time = clamp_timestamp(ent->mtime);
 		child->flags &= ~FLAG_DIR_CREATED_IMPLICITLY;
 		return child;
 	}
